@@ -17,7 +17,7 @@ import (
 
 // Step is one action of the scripted client / handler schedule.
 type Step struct {
-	Op     string // send | complete | flush
+	Op     string // send | complete | flush | idle
 	NoWait bool   // do not wait for the step's effect before the next step (pipelining / bursts)
 
 	// send
@@ -34,6 +34,10 @@ type Step struct {
 	Plain   bool         `json:",omitempty"` // error is a plain Go error rather than MessageRerror
 	ErrKind string       `json:",omitempty"` // special error values: canceled | deadline | wrap9p (see Outcome)
 
+	// idle: nothing is sent for this many milliseconds; the server's read deadlines run 100
+	// times faster in such a script, so 300 ms are its 30 s idle timeout
+	IdleMs int `json:",omitempty"`
+
 	// flush
 	Target  string `json:",omitempty"` // parked | answered | unused | flushed (flush the same tag twice)
 	Release string `json:",omitempty"` // "", "before", "after": release the target's handler right before / after sending the Tflush, without waiting
@@ -43,6 +47,10 @@ type ScriptCase struct {
 	MSize      uint32
 	Rendezvous bool
 	Steps      []Step
+	// Burst > 0: before the steps, this many requests are sent back to back and left
+	// outstanding (their handlers parked), so that the steps run at a pipelining depth of
+	// more than a hundred
+	Burst int `json:",omitempty"`
 }
 
 var tagUniverse = []uint16{0, 1, 2, 3, 5, 7, 0x100, 0xFFFE, 0xFFFF, 11, 12, 13, 14, 15, 16, 17}
@@ -353,13 +361,43 @@ func (e *engine) release(r *req, st Step) {
 	r.inv.Release(out)
 }
 
+// roundTrip sends one more request through the server, completes it and waits for its reply.
+func (e *engine) roundTrip() error {
+	m := refwire.Msg{Kind: refwire.Tclunk, Tag: e.freeTag(3)}
+	r := &req{tag: m.Tag}
+	e.nextMark += 2
+	r.marker = e.nextMark
+	r.hasMark = SetMarker(&m, r.marker)
+	e.byMarker[r.marker] = r
+	r.sent = refwire.Canon(&m)
+	r.sent.Tag = 0
+	r.needInvoke = true
+	e.reqs = append(e.reqs, r)
+	e.byTag[r.tag] = r
+	e.dispatched++
+	e.tracef("round trip on tag %d", m.Tag)
+	e.p.Send(&m)
+	if err := e.barrier(); err != nil {
+		return err
+	}
+	e.release(r, defaultResult())
+	r.needReply = true
+	return e.barrier()
+}
+
 func defaultResult() Step {
 	return Step{ResMsg: &refwire.Msg{Kind: refwire.Rwrite}}
 }
 
 // RunScript executes a C06/C07 script against a real ServeConn.
 func RunScript(c ScriptCase, flushProperty bool) harn.Result {
-	a, b := memconn.NewPair(memconn.Options{Rendezvous: c.Rendezvous})
+	hasIdle := false
+	for _, st := range c.Steps {
+		if st.Op == "idle" {
+			hasIdle = true
+		}
+	}
+	a, b := memconn.NewPair(memconn.Options{Rendezvous: c.Rendezvous, HonorDeadlines: hasIdle})
 	h := NewHandler()
 	h.HonourFn = func(m *refwire.Msg) bool {
 		mk, ok := GetMarker(m)
@@ -388,8 +426,43 @@ func RunScript(c ScriptCase, flushProperty bool) harn.Result {
 	}
 	res := harn.Result{}
 	pending := false // effects owed by NoWait steps
-	for si, st := range c.Steps {
+	steps := c.Steps
+	if c.Burst > 0 {
+		var burst []Step
+		kinds := []uint8{refwire.Twrite, refwire.Tstat, refwire.Topen, refwire.Tread, refwire.Tclunk}
+		for i := 0; i < c.Burst; i++ {
+			burst = append(burst, Step{Op: "send", NoWait: i != c.Burst-1, Msg: refwire.Msg{Kind: kinds[i%len(kinds)], Fid: uint32(i), Count: 8}, TagSel: i, Honour: i%2 == 0})
+		}
+		steps = append(burst, c.Steps...)
+		if c.Burst > 128 {
+			e.classes["burst_over_128"] = true
+		}
+	}
+	if hasIdle {
+		b.ScaleReadDeadlines(100)
+		// one round trip so that the server's reader re-arms its deadline under the new scale
+		if err := e.roundTrip(); err != nil {
+			return harn.Result{Err: err}
+		}
+	}
+	for si, st := range steps {
 		switch st.Op {
+		case "idle":
+			if pending {
+				if err := e.barrier(); err != nil {
+					return harn.Result{Err: err}
+				}
+				pending = false
+			}
+			e.tracef("client idle for %d ms (= %d s of the server's read timeouts)", st.IdleMs, st.IdleMs/10)
+			time.Sleep(time.Duration(st.IdleMs) * time.Millisecond)
+			e.classes["idle_past_read_timeout"] = true
+			if len(e.parked()) > 0 {
+				e.classes["idle_with_handler_running"] = true
+			}
+			if err := e.roundTrip(); err != nil {
+				return harn.Result{Err: err}
+			}
 		case "send":
 			m := st.Msg
 			r := &req{honour: st.Honour}
@@ -628,29 +701,8 @@ func RunScript(c ScriptCase, flushProperty bool) harn.Result {
 	}
 	// give stray frames (a late reply to a flushed request, a duplicate) a chance to show up:
 	// one more round trip through the server, then a short quiet period
-	{
-		m := refwire.Msg{Kind: refwire.Tclunk, Tag: e.freeTag(3)}
-		r := &req{tag: m.Tag}
-		e.nextMark += 2
-		r.marker = e.nextMark
-		r.hasMark = SetMarker(&m, r.marker)
-		e.byMarker[r.marker] = r
-		r.sent = refwire.Canon(&m)
-		r.sent.Tag = 0
-		r.needInvoke = true
-		e.reqs = append(e.reqs, r)
-		e.byTag[r.tag] = r
-		e.dispatched++
-		e.tracef("final round trip on tag %d", m.Tag)
-		e.p.Send(&m)
-		if err := e.barrier(); err != nil {
-			return harn.Result{Err: err}
-		}
-		e.release(r, defaultResult())
-		r.needReply = true
-		if err := e.barrier(); err != nil {
-			return harn.Result{Err: err}
-		}
+	if err := e.roundTrip(); err != nil {
+		return harn.Result{Err: err}
 	}
 	for _, r := range e.reqs {
 		if r.lateReleased {
